@@ -1,5 +1,5 @@
 (* Props/C05.v — the disk file system stays consistent across every history of additions. *)
-Require Import PyBase GenDisk Disk ThomsonDos DiskDefs DiskWriteProofs DiskLoopProofs.
+Require Import PyBase GenDisk Disk ThomsonDos DiskDefs DiskWriteProofs DiskLoopProofs DiskNameProofs.
 Open Scope Z_scope.
 
 (* base: formatting a side yields a strict, empty file system with 157 free blocks *)
@@ -62,3 +62,14 @@ Theorem C05_invocation_always_saves : forall (is_fd v init : bool) (fs : fsmap) 
   exists c, d_effects (inject_perform is_fd v init fs arch img srcs) = [WriteFile arch c].
 Proof. exact inject_always_saves. Qed.
 Print Assumptions C05_invocation_always_saves.
+
+(* outside the printable-name hypothesis of the theorems above: a catalogue name or extension that
+   cannot be encoded (a character above 7F) is refused with the side returned UNTOUCHED, whatever
+   the side, the content and the free space (the catalogue record is built before the first
+   modification; it used to be built after the table had been committed: finding F17, repaired) *)
+Theorem C05_unencodable_name_changes_nothing : forall (sd : side) (content name ext : list Z) (kind dtype : Z),
+  encodable (upper_ascii name) && encodable (upper_ascii ext) = false ->
+  fst (write_file sd content name ext kind dtype) = sd /\
+  exists e, snd (write_file sd content name ext kind dtype) = Err e.
+Proof. exact write_unencodable_name_changes_nothing. Qed.
+Print Assumptions C05_unencodable_name_changes_nothing.
